@@ -2182,7 +2182,7 @@ pub fn run(ctx: &Ctx) -> Report {
             if ctx.thorough { format!("; ALL double edits (12-token alphabet) of the seeds with at most {} tokens", DOUBLE_TOKEN_LIMIT) } else { String::new() }
         ),
     );
-    rep.level = "exploration";
+    rep.level = "fault_enumeration";
     let t_start = std::time::Instant::now();
     let dir = scratch_dir(ctx);
     let (space, all_seeds) = build_space(&ctx.repo, ctx.thorough, limit, false);
